@@ -132,6 +132,23 @@ def make_cases(seed, n, names):
                         return False, "res[%d] * src[%d] = 1" % (j, j)
                 return True, ""
             add("!g3batchinv [ %s ]" % " ".join(w3(e) for e in es), "batchInverse", chk, "len%d" % min(ln, 4))
+    # long batches (a size-dependent path, e.g. a parallel split of the batch, only shows there): lengths that no small
+    # thread count divides
+    for ln in ([1025, 1543] if n <= 4000 else [1025, 1543, 2051, 4099, 1024]):
+        es = []
+        while len(es) < ln:
+            e = gen_e3(rng)
+            if canon(e) != (0, 0, 0):
+                es.append(e)
+
+        def chk(v, es=es):
+            if len(v) != 3 * len(es):
+                return False, "3*size words"
+            for j, e in enumerate(es):
+                if kmul(canon(v[3 * j:3 * j + 3]), canon(e)) != (1, 0, 0):
+                    return False, "res[%d] * src[%d] = 1" % (j, j)
+            return True, ""
+        add("!g3batchinv [ %s ]" % " ".join(w3(e) for e in es), "batchInverse", chk, "len>=1024")
     return cases
 
 
